@@ -83,7 +83,6 @@ def paired_store_premise(F, fn, b):
 
 STORE_EXCEPTIONS = {
     (W + 'finish_with_mac', 'available', '*'): ('reservation accounting', reservation_premise),
-    (W + 'set_limit', 'limit', 2): ('restored by the following store to available', paired_store_premise),
 }
 
 
